@@ -1,4 +1,4 @@
-import ScriggoV.Lemmas.LexerPos
+import ScriggoV.Lemmas.LexerPos9
 import ScriggoV.Props.C04
 /-! # C21 — build errors point at a real location in the reported file
 
@@ -7,14 +7,20 @@ token (and to its own errors) are those of the token's start offset, as specifie
 `Spec.Position.lineCol`. Offsets are covered by C04's `spans_partition` (re-exported here as
 `offsets_in_range`).
 
-Proved for all inputs (`_partial`: the sub-scanners named in each theorem):
+Proved for all inputs:
+* `positions_consistent_partial`  every token of the template layer (text, delimiters, comments, URL
+                             marks, EOF) and the lexer's own error carry the line and column of their start
+                             offset — main loop with all contexts, tags, attributes, CDATA, end tags, Markdown,
+                             comments, raw content — under the hypotheses listed at the theorem (no leading BOM,
+                             no LF CR, well-formed characters, no shebang line, and `lexCode` by hypothesis);
+and, without any hypothesis on the bytes (`_partial`: the sub-scanners named in each theorem):
 * `walk_positions`           the byte walk shared by `lexComment`, `skipRawContent`, CDATA sections
                              and `/* */` comments advances line and column exactly as the specification;
 * `lexComment_positions`     a `{# … #}` comment (nested, multi-line, any bytes) gets the position of
                              its start offset and leaves the lexer at the position of its end;
 * `skipRawContent_positions` the content of `{% raw %}` leaves the lexer at the right position.
-Covered by the correspondence harness and the Go oracle only: the main loop of `scan` with its
-contexts, `scanTag`/`scanAttribute`, the Markdown cases, `lexCode` and its literal lexers.
+Covered by the correspondence harness and the Go oracles only: `lexCode` and its literal lexers
+(hypothesis `CodePosSpec` of the main theorem), the shebang line.
 
 The full statement (every token of every scan) is false of the code: `FullStatement` is refuted
 by `"\n\r{{a}}"` (LF CR is read as one line terminator, known finding `lf-cr-column`). -/
@@ -85,6 +91,76 @@ theorem lexComment_positions_partial (E : Env) (st st' : St) (hb : st.base ≤ E
 theorem skipRawContent_positions_partial (E : Env) (st st' : St) (m : Bytes) (p : Nat) (hpos : PosAt E st st.base)
     (h : skipRawContent E st m = .ok (st', p)) : PosAt E st' (st'.base + p) :=
   skipRawContent_posAt hpos h
+
+/-- `positions_consistent` (partial: the whole template layer — main loop with all its contexts,
+tags, attributes, CDATA, `</script>`/`</style>`, Markdown URLs and code blocks, comments, raw
+content, delimiters — for every byte string; `lexCode` by hypothesis `CodePosSpec`).
+
+Every token other than an inserted semicolon, and the lexer's own error, carries the line and
+column `Spec.Position.lineCol` gives to its start offset, provided that
+* `hbom`  the source has no leading byte order mark (known finding `template-leading-bom-column`),
+* `hno`   no LF is directly followed by CR (known finding `lf-cr-column`),
+* `hal`   characters are well formed where runes are decoded (`Aligned`; valid UTF-8 is),
+* `hns`   the source does not start with a `#!` line,
+* `hC`    `lexCode` keeps positions right in code regions (`CodePosSpec`: not proved, covered by the
+          correspondence harness and the Go oracles). -/
+theorem positions_consistent_partial (U : Unicode) (format : Nat) (nps : Bool) (src : Bytes) (toks : List Tok)
+    (e : Option LexErr) (h : scanTemplate U format nps src = .ok (toks, e))
+    (hbom : hasBOM src = false) (hno : NoLFCR src) (hal : Aligned src) (hns : NoShebang src)
+    (hC : CodePosSpec { text := src, tmpl := true, noParseShow := nps, U := U }) :
+    (∀ t ∈ toks, t.typ ≠ tokenSemicolon → (t.line, t.col) = lineCol src t.start.toNat) ∧
+    (∀ err, e = some err → (err.line, err.col) = lineCol src err.start) := by
+  unfold scanTemplate at h
+  obtain ⟨h1, h2⟩ := scanWith_pos (E := { text := src, tmpl := true, noParseShow := nps, U := U }) hal hno hns hC format h
+  refine ⟨fun t hm hne => ?_, fun err he => ?_⟩
+  · rw [lineCol_of_noBOM hbom]; exact h1 t hm hne
+  · rw [lineCol_of_noBOM hbom]; exact h2 err he
+
+/-- ASCII text is aligned -/
+theorem aligned_of_ascii {t : Bytes} (h : ∀ b ∈ t, b < 0x80) : Aligned t := by
+  intro i c hc _
+  have hlt : c < 0x80 := h c (List.mem_of_getElem? hc)
+  rw [decodeRune_ascii_size hc hlt]
+  refine ⟨fun k h0 h1 => by omega, fun d hd => ?_⟩
+  have hd' : d < 0x80 := h d (List.mem_of_getElem? hd)
+  have hb := allBytes_spec (p := fun c => !decide (c < 0x80) || isStartChar c) (by decide +kernel) d
+  simpa [hd'] using hb
+
+/-- non-vacuity of the hypotheses: the empty source satisfies them all (`CodePosSpec` included) -/
+example : CodePosSpec { text := [], tmpl := true, noParseShow := false, U := C04.asciiUnicode } := by
+  constructor
+  intro endT st st' e h hp ha
+  unfold lexCode at h
+  have h0 : srcLen ({ text := [], tmpl := true, noParseShow := false, U := C04.asciiUnicode } : Env) st = 0 := by
+    unfold srcLen; simp
+  simp only [h0, if_true] at h
+  split at h
+  · simp only [fail_ok] at h
+    cases h
+    exact ⟨ha, (fun err he => by cases he; exact errorf_pos _ hp), (fun hh => by cases hh)⟩
+  · rename_i hne
+    simp only [pure_eq_ok] at h
+    cases h
+    have heof : endT = tokenEOF := Decidable.byContradiction (fun hn => hne hn)
+    exact ⟨ha, (fun err he => by cases he), fun _ => ⟨hp, fun hn => absurd heof hn⟩⟩
+
+theorem noLFCR_of_no_lf {t : Bytes} (h : ∀ b ∈ t, b ≠ 0x0a) : NoLFCR t := by
+  intro i hi _
+  exact h _ (List.mem_of_getElem? hi) rfl
+
+/-- non-vacuity of the hypotheses on the bytes: a one-line ASCII template with a tag, a URL
+attribute and a comment satisfies `hbom`, `hno`, `hal`, `hns` -/
+def plainSample : Bytes := strBytes "<a href=\"x\">y</a>{# c #}"
+
+example : hasBOM plainSample = false ∧ NoLFCR plainSample ∧ Aligned plainSample ∧ NoShebang plainSample := by
+  refine ⟨by decide +kernel, noLFCR_of_no_lf ?_, aligned_of_ascii ?_, ?_⟩
+  · have : plainSample.all (· != 0x0a) = true := by decide +kernel
+    intro b hb; simpa using List.all_eq_true.mp this b hb
+  · have : plainSample.all (· < 0x80) = true := by decide +kernel
+    intro b hb; simpa using List.all_eq_true.mp this b hb
+  · intro h
+    have : (plainSample[0]? == some 0x23) = false := by decide +kernel
+    rw [h.1] at this; simp at this
 
 /-- non-vacuity: a multi-line nested comment followed by a show; the comment is at 1:1 and the
 `{{` after it at 3:4 — the positions of offsets 0 and 17 -/
